@@ -339,6 +339,7 @@ func init() {
 			observeCross(c, "C03", s)
 		},
 		Solo: c03Probes,
+		Once: c03CallerHeld,
 		Finish: func(c *mon.Ctx, r *mon.Report, ev *mon.Evidence) []string {
 			var gates []string
 			judged := map[string]bool{}
@@ -524,4 +525,151 @@ func shapeOf(name string) string {
 		}
 	}
 	return name
+}
+
+// c03CallerHeld: the window belongs to the lint VALUE that is executed. Lint values a caller holds - the deprecated
+// *lint.Lint handed out by Registry.ByName / BySource, copies of the per-kind lint structs taken from the lookups,
+// values built by hand - are executed directly (Execute / CheckEffective, no registry run) with their window left
+// alone and with their window MOVED around the object's date: one second after the date (excluded), exactly at it
+// (included), ineffective exactly at it (excluded), ineffective one second after it (included).
+func c03CallerHeld(c *mon.Ctx) {
+	g := lint.GlobalRegistry()
+	cfg := g.GetConfiguration()
+	// a few objects per kind on which many lints apply
+	var certs []*mon.Obj
+	for _, i := range W.ByKind[corpus.Cert] {
+		if len(certs) < c.Pick(12, 60) && i%17 == int(uint64(c.Seed)%17) {
+			certs = append(certs, W.Objs[i])
+		}
+	}
+	for _, o := range W.Objs[len(W.Objs)-6:] {
+		if o.Kind == corpus.Cert {
+			certs = append(certs, o)
+		}
+	}
+	type mv struct {
+		label string
+		e, i  func(t time.Time) time.Time
+		in    bool
+	}
+	zero := func(time.Time) time.Time { return time.Time{} }
+	// the reference predicate on the MOVED window (a moved date that lands on the zero time means "no bound", e.g.
+	// for a CRL without thisUpdate; the table's in column is what the move intends for ordinary dates)
+	refIn := func(e, i, t time.Time) bool {
+		return mon.InWindow(lint.LintMetadata{EffectiveDate: e, IneffectiveDate: i}, t)
+	}
+	moves := []mv{
+		{"effective one second after the object's date", func(t time.Time) time.Time { return t.Add(time.Second) }, zero, false},
+		{"effective exactly at the object's date", func(t time.Time) time.Time { return t }, zero, true},
+		{"effective at the date in another zone", func(t time.Time) time.Time { return t.In(time.FixedZone("+5", 5*3600)) }, zero, true},
+		{"ineffective exactly at the object's date", zero, func(t time.Time) time.Time { return t }, false},
+		{"ineffective one second after the object's date", zero, func(t time.Time) time.Time { return t.Add(time.Second) }, true},
+		{"window of one second starting at the date", func(t time.Time) time.Time { return t }, func(t time.Time) time.Time { return t.Add(time.Second) }, true},
+		{"window ending at the date", func(t time.Time) time.Time { return t.Add(-time.Hour) }, func(t time.Time) time.Time { return t }, false},
+	}
+	judge := func(name, how string, in bool, effective bool, res *lint.LintResult, o *mon.Obj) {
+		c.R.Count("evaluations", 1)
+		c.R.Count("caller_held_judgements", 1)
+		if effective != in {
+			c.V("caller-held|check-effective|"+name, fmt.Sprintf("%s: CheckEffective = %v for an object dated %s although the lint value's window (%s) says %v", name, effective, o.Date().UTC().Format(time.RFC3339), how, in), name, inputs(o), nil)
+		}
+		if res == nil {
+			return
+		}
+		switch {
+		case res.Status == lint.NA || res.Status == lint.Fatal:
+		case res.Status == lint.NE && in:
+			c.V("caller-held|ne-inside-window|"+name, fmt.Sprintf("%s executed directly is NE for an object dated %s inside the lint value's window (%s)", name, o.Date().UTC().Format(time.RFC3339), how), name, inputs(o), nil)
+		case res.Status != lint.NE && !in:
+			c.V("caller-held|finding-outside-window|"+name, fmt.Sprintf("%s executed directly reports %s for an object dated %s outside the lint value's window (%s)", name, res.Status, o.Date().UTC().Format(time.RFC3339), how), name, inputs(o), nil)
+		default:
+			c.R.Distinct("caller_held_lints_judged", name)
+		}
+	}
+	safely := func(f func()) {
+		defer func() { _ = recover() }()
+		f()
+	}
+	bySource := map[string]*lint.Lint{}
+	for _, src := range g.Sources() {
+		for _, l := range g.BySource(src) {
+			bySource[l.Name] = l
+		}
+	}
+	for _, li := range Inv {
+		if li.Kind != corpus.Cert {
+			continue
+		}
+		dep := g.ByName(li.Name)
+		if dep == nil {
+			c.V("caller-held|byname-nil|"+li.Name, "Registry.ByName returns nil for the registered certificate lint "+li.Name, li.Name, nil, nil)
+			continue
+		}
+		for oi, o0 := range certs {
+			o := o0.Reparse()
+			if o == nil {
+				continue
+			}
+			t := o.Date()
+			// as handed out
+			for _, h := range []*lint.Lint{dep, bySource[li.Name]} {
+				if h == nil {
+					continue
+				}
+				h := h
+				safely(func() {
+					judge(li.Name, "as handed out by the registry", mon.InWindow(li.Meta, t), h.CheckEffective(o.Cert), h.Execute(o.Cert, cfg), o)
+				})
+			}
+			// windows moved on a COPY (the registered lint is never modified)
+			m := moves[(oi+len(li.Name))%len(moves)]
+			cp := *dep
+			cp.EffectiveDate, cp.IneffectiveDate = m.e(t), m.i(t)
+			safely(func() {
+				judge(li.Name, "deprecated Lint copy, "+m.label, refIn(cp.EffectiveDate, cp.IneffectiveDate, t), cp.CheckEffective(o.Cert), cp.Execute(o.Cert, cfg), o)
+			})
+			cl := *li.CertL
+			cl.EffectiveDate, cl.IneffectiveDate = m.e(t), m.i(t)
+			safely(func() {
+				judge(li.Name, "CertificateLint copy, "+m.label, refIn(cl.EffectiveDate, cl.IneffectiveDate, t), cl.CheckEffective(o.Cert), cl.Execute(o.Cert, cfg), o)
+			})
+			// after the copies were used, the value handed out must still have the registered window
+			if !dep.EffectiveDate.Equal(li.Meta.EffectiveDate) || !dep.IneffectiveDate.Equal(li.Meta.IneffectiveDate) {
+				c.V("caller-held|registered-window-changed|"+li.Name, "the window of the registered lint "+li.Name+" changed while copies of it were executed", li.Name, nil, nil)
+			}
+		}
+	}
+	// CRL and OCSP lint structs: copies with moved windows
+	for _, li := range Inv {
+		if li.Kind == corpus.Cert {
+			continue
+		}
+		for oi, idx := range W.ByKind[li.Kind] {
+			o := W.Objs[idx].Reparse()
+			if o == nil {
+				continue
+			}
+			t := o.Date()
+			m := moves[(oi+len(li.Name))%len(moves)]
+			if li.Kind == corpus.CRL {
+				cl := *li.CrlL
+				safely(func() {
+					judge(li.Name, "as registered", mon.InWindow(li.Meta, t), cl.CheckEffective(o.CRL), cl.Execute(o.CRL, cfg), o)
+				})
+				cl.EffectiveDate, cl.IneffectiveDate = m.e(t), m.i(t)
+				safely(func() {
+					judge(li.Name, "RevocationListLint copy, "+m.label, refIn(cl.EffectiveDate, cl.IneffectiveDate, t), cl.CheckEffective(o.CRL), cl.Execute(o.CRL, cfg), o)
+				})
+			} else {
+				cl := *li.OcspL
+				safely(func() {
+					judge(li.Name, "as registered", mon.InWindow(li.Meta, t), cl.CheckEffective(o.OCSP), cl.Execute(o.OCSP, cfg), o)
+				})
+				cl.EffectiveDate, cl.IneffectiveDate = m.e(t), m.i(t)
+				safely(func() {
+					judge(li.Name, "OcspResponseLint copy, "+m.label, refIn(cl.EffectiveDate, cl.IneffectiveDate, t), cl.CheckEffective(o.OCSP), cl.Execute(o.OCSP, cfg), o)
+				})
+			}
+		}
+	}
 }
